@@ -767,6 +767,11 @@ func (w *World) doByz() {
 			if _, dup := bad[h]; dup {
 				continue
 			}
+			if kind == tNextDup || kind == tRefsDup {
+				// a repeated link does not survive the copy a log makes of what it is given: what is merged is
+				// the genuine entry again. These two kinds are for Verify on the entry itself (C07)
+				continue
+			}
 			o := srcEntries[cand[r.Choose("byz-other", len(cand))]]
 			if o.GetHash().String() == h {
 				o = nil
@@ -826,6 +831,7 @@ func (w *World) doByz() {
 	}
 	before := w.observe(dst)
 	lenBefore := dst.Len()
+	clockBefore := dst.Clock.GetTime()
 	_, err := dst.Join(evil, -1)
 	r.Logf("byz n%d->n%d batch=%d candidates=%d bad=%v err=%v", s.Idx, rcv.Idx, batch, len(cand), badNames, err != nil)
 	if len(cand) > 8 && anyBad {
@@ -838,6 +844,10 @@ func (w *World) doByz() {
 		_, strict := w.M.Linear(rcv.Set, w.ByHash)
 		if d := w.sameObs(before, w.observe(dst), strict); d != "" || dst.Len() != lenBefore {
 			r.Violate(w.P.Prop+":not-atomic", "refused merge (bad entries %v in a batch of %d) changed the log: %s", badNames, len(cand), d)
+		}
+		if ct := dst.Clock.GetTime(); ct != clockBefore {
+			// observable through the time of the next append
+			r.Violate(w.P.Prop+":not-atomic", "refused merge (bad entries %v in a batch of %d) moved the log's clock from %d to %d", badNames, len(cand), clockBefore, ct)
 		}
 		return
 	}
@@ -1065,8 +1075,8 @@ func (w *World) tamperLegacy(n *Node, h string, kind, pick, wk int) {
 	}
 	r.Probe("legacy-version-entry")
 	tr := tamper(r, e, kind, src, Writers()[wk].ID.PublicKey)
-	if !tr.applied || tr.invisible || kind == tVersion {
-		return
+	if !tr.applied || tr.invisible || kind == tVersion || kind == tNextDup || kind == tRefsDup {
+		return // (the version-stamping pre-signature step works on a copy, and copies drop repeated links)
 	}
 	r.Fault("tamper-" + tamperNames[kind])
 	var verr error
@@ -1157,9 +1167,13 @@ func (w *World) doRefused() {
 		}
 		if fresh && !w.blocked(n.Idx, src.Idx) {
 			before := w.observe(n.Log)
+			clockBefore := n.Log.Clock.GetTime()
 			n.Pol.kind, n.Pol.nth = 3, n.Pol.calls.Load()+1
 			_, err := n.Log.Join(src.Log, -1)
 			n.Pol.kind = 0
+			if ct := n.Log.Clock.GetTime(); ct != clockBefore {
+				r.Violate(w.P.Prop+":not-atomic", "a refused merge moved the log's clock from %d to %d", clockBefore, ct)
+			}
 			r.Fault("merge-refused")
 			r.Logf("refused-merge n%d<-n%d err=%v", n.Idx, src.Idx, err != nil)
 			if err == nil {
@@ -1258,6 +1272,9 @@ func (w *World) doRebuild() {
 	if len(w.M.Heads(n.Set)) > 1 {
 		w.R.Probe("rebuilt-multi-head-log")
 	}
+	if w.R.Choose("aliased-append", 4) == 0 {
+		w.aliasedAppend(n)
+	}
 	if w.R.Choose("rebuild-fork", 3) == 0 {
 		// a second log object built from the very same options value (same entries map): what happens to it
 		// is its own business
@@ -1273,6 +1290,63 @@ func (w *World) doRebuild() {
 		w.R.Probe("fork-from-the-same-options")
 	}
 	w.R.Logf("rebuild n%d from entries (heads given: %v)", n.Idx, withHeads)
+}
+
+// aliasedAppend (scratch objects): a log in which one stored block is two entries, both of them heads -
+// a replica loaded from the raw-codec identifier of a head (a block store answers by multihash) and
+// merged back. An append on it names every head, leaves itself as the single head and loses nothing.
+func (w *World) aliasedAppend(n *Node) {
+	r := w.R
+	pick := r.Choose("alias-head", 1<<16)
+	if w.Codec != "cbor" || w.LinkKeyBytes != nil || len(n.Set) == 0 {
+		return
+	}
+	heads := w.M.Heads(n.Set)
+	h := w.Cids[heads[pick%len(heads)]]
+	rawCid := cid.NewCidV1(cid.Raw, h.Hash())
+	var b *ipfslog.IPFSLog
+	var err error
+	w.driven(func(ctx context.Context) {
+		b, err = ipfslog.NewFromEntryHash(ctx, w.St, n.W.ID, rawCid, w.loadOpts(), &ipfslog.FetchOptions{ProgressChan: w.curProgress})
+	})
+	if err != nil || b == nil {
+		return
+	}
+	a := w.clone(n, true)
+	if _, err := a.Join(b, -1); err != nil || a.Len() == len(n.Set) {
+		return
+	}
+	r.Probe("append-on-heads-that-alias-one-block")
+	headsBefore := sortedCopy(hashSeq(a.Heads()))
+	viewBefore := hashSeq(a.Values())
+	e, err := a.Append(w.ctx, w.payload(), &ipfslog.AppendOptions{PointerCount: w.pointerCount()})
+	if err != nil {
+		r.Violate(w.P.Prop+":append-error", "append on a log whose heads alias one block failed: %v", err)
+	}
+	var nx []string
+	for _, c := range e.GetNext() {
+		nx = append(nx, c.String())
+	}
+	sort.Strings(nx)
+	if joinS(nx) != joinS(headsBefore) {
+		r.Violate(w.P.Prop+":append-next", "appended entry names %d predecessors %v, the log had the %d heads %v (two of them one block under two identifiers)", len(nx), nx, len(headsBefore), headsBefore)
+	}
+	if hs := hashSeq(a.Heads()); len(hs) != 1 || hs[0] != e.GetHash().String() {
+		r.Violate(w.P.Prop+":heads", "after an append on aliased heads the heads are %v, want just the new entry", hs)
+	}
+	held := hashSet(a.GetEntries())
+	view := map[string]bool{}
+	for _, v := range hashSeq(a.Values()) {
+		view[v] = true
+	}
+	if !setEq(held, view) {
+		r.Violate(w.P.Prop+":complete", "after an append on aliased heads the log holds %d entries, its linearised view lists %d", len(held), len(view))
+	}
+	for _, v := range viewBefore {
+		if !view[v] {
+			r.Violate(w.P.Prop+":values-subsequence", "an entry of the previous view is missing from the view after an append (heads aliasing one block)")
+		}
+	}
 }
 
 // doPartial (C02 only, on scratch objects): a log obtained by a length-limited load, then merged
